@@ -1,6 +1,7 @@
 package engine
 
 import (
+	"time"
 	"fmt"
 	"go/constant"
 	"go/token"
@@ -564,6 +565,12 @@ func (ex *Exec) runBlocks(fr *frame) {
 		cont := false
 		for _, ins := range blk.Instrs {
 			ex.steps++
+			if ex.steps&0x3fff == 0 && !ex.w.cfg.Deadline.IsZero() && time.Since(ex.w.cfg.Deadline) > 90*time.Second && ex.w.initExec != ex {
+				// the harness's wall budget is exhausted (plus a grace period): the
+				// path is abandoned and reported as not discharged, never as a pass
+				ex.w.run.noteBudgetAbort()
+				panic(stopf(StopUnknown, "wall budget of the harness exhausted while this path was running"))
+			}
 			if ex.steps > ex.maxSteps {
 				panic(stopf(StopUnwind, "step budget %d exceeded in %s", ex.maxSteps, fr.fn))
 			}
